@@ -58,7 +58,7 @@ CHECKS = {
          "DESIGN.md §3 (C08), §4, §6"),
  "C11": ("bounded-exhaustive enumeration of loader configurations x virtual file trees x reference kinds x name forms x referrer locations, two-hop chains and inheritance+include, observed through recording in-memory loaders and a canary file on the real file system",
          "Every configuration within the bounds is compiled and rendered through recording loaders: the set of fetched paths must equal the closure of the referenced names, the first loader holding a name must serve it (later loaders not asked), missing names are errors (or nothing with if_exists, which must not swallow errors of existing files), each hop is resolved relative to the referring file, and a real file no loader serves is never read.",
-         "Harness loaders follow DESIGN.md Appendix A.8; expectations are computed by the generator from its knowledge of the tree.",
+         "Harness loaders follow DESIGN.md Appendix A.8; expectations are computed by the generator from its knowledge of the tree. Six recorded known findings (one per reference kind): with two LocalFilesystemLoaders that have different base directories, files of the second are unreachable from templates of the first.",
          "DESIGN.md §3 (C11), §4, §6"),
  "C02": ("bounded-exhaustive composition of data-flow routes (taint sources x carrier chains up to depth 2/3 x print sinks) plus every registered filter on tainted input/argument, judged by a marker-absence and differential-count oracle",
          "Every opt-out-free program built from 23 taint sources, all chains of up to 2 (thorough 3) of 33 carriers and 7 sinks, every registered filter (registry hook) with tainted input or argument, tags printing their arguments, inheritance/Super routes and the scope of the explicit opt-outs is rendered with a marker made of < > & ' \" in every string leaf; no raw fragment of the marker may appear and the count of raw special characters may not exceed that of the same program on a harmless twin value.",
@@ -70,7 +70,7 @@ CHECKS = {
          "DESIGN.md §3 (C03), §4, §6"),
  "C01": ("bounded-exhaustive enumeration in seven layers (raw strings, token sequences per registered tag, value universe x access paths, every filter x input x argument by three routes, filter 2-chains, tag/operator schemas filled from the universe, composition cycles / deep nesting / resource caps) executed in isolated worker processes with crash and hang attribution",
          "Every case of every layer within the bounds is compiled and, if it compiles, executed against a context holding the whole value universe; workers are separate processes with a 32 MB stack cap and a progress watchdog, a dead or hung worker is attributed to the case it had announced and the case is re-run in isolation; risky families run one sub-process per case. Oracle: exactly one of template/error, Execute returns, no panic, process alive, no hang.",
-         "The tag/filter lists come from the registry hooks (a newly registered tag or filter is covered). Composition cycles kill the process on the pinned tree: 14 recorded known findings, one per cycle shape.",
+         "The tag/filter lists come from the registry hooks (a newly registered tag or filter is covered). Composition cycles (include/extends/import/ssi) killed the process on the pinned tree; repaired by a nesting-depth limit, all 20 cycle shapes now return an error.",
          "DESIGN.md §3 (C01), §4, §6"),
  "C04": ("explicit-state exploration of all execution histories (length <=3/4 over a 4-context alphabet incl. a failing and a nil context) on one compiled template per program and option setting; state = canonical deep snapshot of everything reachable from the template; invariant + differential oracle",
          "For every program (every tag, all nested pairs, whitespace layouts) x option setting the template is compiled once and every history of executions is run: after each execution a reflect/unsafe deep snapshot of the whole compiled object graph (nodes, tokens, blocks, macros, set, parents, included templates) must equal the initial one, and the (output, error) pair must equal that of a freshly compiled template on the same context.",
